@@ -55,7 +55,7 @@ def path_scenarios(ctx, paths):
         reqcls = [m["cls"] for m in path if m["stage"] == "request"]
         kinds = [reqcls[0]] if reqcls and reqcls[0] in HOSTS else ["ipv4", "ipv6", "domain"]
         hasauth = any(m["stage"] == "auth" for m in path)
-        n_inst = (14 if quick else 60) if allok else (1 if quick else 3)
+        n_inst = (14 if quick else 200) if allok else (1 if quick else 8)
         for j in range(n_inst):
             kind = kinds[j % len(kinds)] if not allok else kinds[0]
             host = HOSTS[kind][(j + ctx.seed) % len(HOSTS[kind])] if j < len(HOSTS[kind]) else rng.choice(HOSTS[kind])
@@ -69,7 +69,7 @@ def path_scenarios(ctx, paths):
                 split = "random"
             scen.append({"id": "p%d.%d" % (i, j), "kind": "path", "msgs": path, "host": host,
                          "port": PORTS[(j + i) % len(PORTS)], "kv": kv, "split": split,
-                         "nrand": 6 if quick else 25, "seed": ctx.seed * 100000 + i * 100 + j})
+                         "nrand": 6 if quick else 60, "seed": ctx.seed * 100000 + i * 100 + j})
     return scen
 
 
@@ -95,7 +95,7 @@ def run(ctx):
     for i, (_n, c) in enumerate(kvs):
         scen.append({"id": "kv%d" % i, "kind": "args", "syms": c["s"], "want": c["kv"], "enc": True})
     for i, n in enumerate([0, 1, 2, 3, 4, 10, 0, 0] if quick else [0, 1, 2, 3, 4, 5, 7, 10, 262, 520, 0, 0, 0, 0]):
-        scen.append({"id": "raw%d" % i, "kind": "raw", "rawlen": n, "nrand": 40 if quick else 400, "seed": ctx.seed * 77 + i})
+        scen.append({"id": "raw%d" % i, "kind": "raw", "rawlen": n, "nrand": 40 if quick else 2000, "seed": ctx.seed * 77 + i})
     binary = ctx.go_build("./cmd/c17")
     traces = ctx.exec_scenarios(binary, scen, "c17", shards=12, timeout=1500)
     if len(traces) != len(scen) and not any(t.get("crashed") for t in traces):
